@@ -90,3 +90,8 @@ open Pandora.C13
 #print axioms crossR_vertical
 #print axioms rightCol_transport
 #print axioms cbca_crop_eq_whole
+#print axioms ccStep_congr
+#print axioms ccOnT_eq_ccOn
+#print axioms ccOnT_local
+#print axioms ccOnT_equivariant
+#print axioms pipeConeT_documented
